@@ -101,6 +101,14 @@ CHECKS = {
                      "and random pairs, and every position written into save documents along an explored path.",
                 note="tree structure as reported by the audit hook; path text split into components by the converter",
                 technique="TLA+ specification of the path algebra (InkPath) evaluated by TLC on the implementation's content audit"),
+    "C14": dict(level=TV, ref="5/C14",
+                text="Every document (corpus reference stories, this compiler's output for corpus sources and generated programs, "
+                     "texts salted with tab, quote, backslash, control, non-ASCII and non-BMP characters) is loaded by the "
+                     "default loader (base) and by the streaming loader and from three re-serialisations (escaped non-ASCII "
+                     "with surrogate pairs, pretty-printed, floats in exponent form); TLC validates audit listing and every "
+                     "explored path of each probed load against the reference system of the base (InkHostAbs rule Valid).",
+                note="two builds of the harness (feature off / on); a defect common to both loaders is out of reach here",
+                technique="TLA+ trace validation (InkHostTrace/InkHostAbs): default loader as base, streaming loader / re-serialised documents as subject"),
 }
 
 NOT_YET = {}
